@@ -4,6 +4,7 @@ C17.a  definite initialisation of every scalar member of every FFSM2 record
 C17.b  user-provided copy/move constructors copy every base and member from the same base/member
 C17.c  copy/move construction of an automatically activated machine never re-enters (no initialEnter)
 C17.d  no mutable namespace-scope / static state; externals are deterministic
+C17.e  no value depends on an address: no pointer<->integer casts, no pointer ordering / subtraction / identity tests other than null
 """
 from lint import facts, records, ir
 
@@ -23,12 +24,14 @@ def run(run):
         records.copy_ctor_coverage(run, 'C17.b', F)
         records.no_mutable_statics(run, 'C17.d', F)
         records.externals(run, 'C17.d', F)
+        records.address_independence(run, 'C17.e', F)
         if w == 'w_core':
             copy_does_not_reenter(run, F)
         facts.drop(F)
     run.floor('C17.a', 40)
     run.floor('C17.b', 6)
     run.floor('C17.c', 2)
+    run.floor('C17.e', 4)
     run.explanation = (
         'Record-level rules over every FFSM2 class instantiated by witnesses w_core and w_pay in each feature '
         'configuration: definite initialisation of scalar members by every constructor, member-by-member coverage of '
